@@ -107,6 +107,9 @@ def check(scenario, res):
         idx_timeout = next((i for i, e in enumerate(evs) if e[0] == 'get-timeout' and e[1] == outer), None)
         idx_done = next((i for i, e in enumerate(evs) if e[0] in ('func-return', 'func-raise') and e[1] == tag), None)
         end = script['end']
+        inner_fail = next((e[2] for e in evs if e[0] == 'func-raise' and e[1] == tag and str(e[2]).startswith('inner:')), None)
+        if inner_fail is not None:
+            end = inner_fail      # the function failed with the uncaught own failure of its inner call
         if rec['outcome'] == 'raise' and not rec.get('exc_is_own') and not rec.get('exc_exact_builtin_timeout'):
             v('foreign-exception-escaped', call=ci, exc=rec.get('exc_type'))
         if rec['outcome'] == 'return-other':
